@@ -491,11 +491,11 @@ def bfs(prop, tier, depth, wall_cap=None):
     workers = min(16, os.cpu_count() or 4)
     ctx = multiprocessing.get_context("fork")
     completed_depth = -1
-    with ctx.Pool(workers) as pool:
+    if True:
         level = 0
         todo = [(prop, tier, [])]
         while True:
-            results = pool.map(state_task, todo, chunksize=1)
+            results = common.pmap(state_task, todo, workers)
             errs = [r["engine_error"] for r in results if "engine_error" in r]
             if errs:
                 raise common.EngineError("; ".join(errs[:2]))
